@@ -19,8 +19,12 @@ def gen_hist(rnd, n):
             ops.append({"k": "create", "e": e, "a": rnd.randint(0, 1), "t": rnd.choice([0, 0, 1, 2]), "n": ""})   # engines are also created by workers
         elif k < 0.45:
             ops.append({"k": "destroy", "e": e, "a": 0, "t": rnd.randint(0, 2), "n": ""})
-        elif k < 0.92:
+        elif k < 0.70:
             ops.append({"k": "decl", "e": e, "a": 0, "t": rnd.randint(0, 2), "n": rnd.choice(["x", "y"])})
+        elif k < 0.80:
+            ops.append({"k": "conv", "e": e, "a": 0, "t": 0, "n": rnd.choice(["1", "2"])})
+        elif k < 0.92:
+            ops.append({"k": "useconv", "e": e, "a": 0, "t": rnd.randint(0, 2), "n": rnd.choice(["1", "2"])})
         else:
             ops.append({"k": "def", "e": e, "a": 0, "t": 0, "n": "f"})
     return ops
@@ -37,6 +41,10 @@ FIXED = [
     [{"k": "create", "e": 1, "a": 0, "t": 0, "n": ""}, {"k": "create", "e": 2, "a": 1, "t": 1, "n": ""}, {"k": "decl", "e": 1, "a": 0, "t": 1, "n": "x"},
      {"k": "decl", "e": 2, "a": 0, "t": 1, "n": "x"}, {"k": "decl", "e": 2, "a": 0, "t": 0, "n": "y"}, {"k": "destroy", "e": 2, "a": 0, "t": 1, "n": ""},
      {"k": "decl", "e": 1, "a": 0, "t": 1, "n": "y"}],
+    # two engines with the same NUMBER of user conversions but different ones, used alternately from one thread
+    [{"k": "create", "e": 1, "a": 0, "t": 0, "n": ""}, {"k": "create", "e": 2, "a": 1, "t": 0, "n": ""}, {"k": "conv", "e": 1, "a": 0, "t": 0, "n": "1"},
+     {"k": "conv", "e": 2, "a": 0, "t": 0, "n": "2"}, {"k": "useconv", "e": 1, "a": 0, "t": 1, "n": "1"}, {"k": "useconv", "e": 2, "a": 0, "t": 1, "n": "2"},
+     {"k": "useconv", "e": 2, "a": 0, "t": 1, "n": "1"}, {"k": "useconv", "e": 1, "a": 0, "t": 1, "n": "2"}, {"k": "useconv", "e": 1, "a": 0, "t": 0, "n": "1"}],
 ]
 
 
@@ -54,6 +62,14 @@ def run(ck, tier, seed):
     if r2.ok:
         raise lib.Infra("sanity: keying the per-thread storage by address must violate Isolated")
     ck.notes.append(f"sanity: with storage keyed by address TLC finds a history violating Isolated ({r2.distinct} states)")
+    rc = lib.tlc("Engines", "Engines_conv", timeout=1200, heap="12g")
+    ck.add_tlc("Engines (with user conversions: Isolated, ConvIsolated)", rc)
+    if not rc.ok:
+        ck.violation("model:conv", f"Engines violates {rc.violation}", lib.tlc_trace_text(rc))
+    r4 = lib.tlc("Engines", "Engines_pinned3", timeout=600)
+    if r4.ok:
+        raise lib.Infra("sanity: one convertible-type cache per thread (instead of per thread and engine) must violate ConvIsolated")
+    ck.notes.append("sanity: with the convertible-type cache shared by all engines of a thread TLC finds ConvIsolated violated")
     r3 = lib.tlc("Engines", "Engines_pinned2", timeout=600)
     if r3.ok:
         raise lib.Infra("sanity: keying the per-thread storage by a per-thread creation count must violate Isolated")
@@ -76,7 +92,7 @@ def run(ck, tier, seed):
         o = obs[str(rec["id"])]
         ck.evaluations += 1
         hk = lambda i: "hist:" + ";".join(f"{x['k']}.e{x['e']}" + (f"@{x['a']}t{x['t']}" if x['k'] == 'create' else f".t{x['t']}" if x['k'] in ('decl', 'destroy') else "") +
-                                          (f".{x['n']}" if x['n'] else "") for x in rec["ops"][:i + 1])
+                                          (f".{x['n']}" if x['n'] else "") + (f"@t{x['t']}" if x['k'] == 'useconv' else "") for x in rec["ops"][:i + 1])
         if "died" in o:
             ck.violation(hk(len(rec["ops"])), f"process died ({o['died']})", {"history": rec["ops"]})
             continue
